@@ -71,6 +71,11 @@ def run_c10(pid, tier):
                 drift.append({'structure': it['name'], 'what': 'specification fold and real code disagree on a time', 'node': f[1]})
             for f in res['fails']:
                 m = dict(re.findall(r'(RO|MW|FL|RST) \|-> (\d+)', f[3]))
+                if it['name'].endswith('-asreported'):
+                    # recorded from the public API (duration asked first, then the listing): nothing to re-derive
+                    v.fail(f[0], {'circuit': it['name'], 'what': 'the schedule the freshly constructed circuit reports (duration read first, then the operations) double-books a channel',
+                                  'operations': [f[1], f[2]]}, replay={'structure': it['name']})
+                    continue
                 suspects.append({'name': it['name'], 'clause': f[0], 'a': f[1], 'b': f[2], 'cfg': {k_: int(x) for k_, x in m.items()}})
     if drift:
         # the fold is not what the code reports for these structures (model drift, not a verdict): decide them on the code's own
